@@ -812,6 +812,7 @@ func Run(sc *Scenario) *RunResult {
 	res.probe("wg_wait_blocked", w.Stats.WGWaitBlocked)
 	res.probe("library_goroutines", w.Stats.ChildTasks)
 	res.probe("chan_blocked", w.Stats.ChanBlocked)
+	res.probe("library_goroutines_run_before_parent_continues", w.Stats.ChildAbove)
 	res.probe("selects", w.Stats.Selects)
 	res.probe("select_several_ready", w.Stats.SelectMultiReady)
 	res.probe("select_handover", w.Stats.SelectHandover)
